@@ -48,7 +48,7 @@ type scCase struct {
 
 func isDeclCls(c string) bool {
 	switch c {
-	case "pkg", "meth", "hdr", "loc", "post":
+	case "pkg", "meth", "hdr", "loc", "post", "fld":
 		return true
 	}
 	return false
@@ -112,6 +112,8 @@ func classOf(dk string) string {
 		return "rcv"
 	case "compr.n":
 		return "slice"
+	case "pstruct.n":
+		return "stype"
 	case "method.n":
 		return "method"
 	}
@@ -146,6 +148,10 @@ func (r *renderer) use(item int, role string) {
 		r.lit("len(")
 		r.id(item, role)
 		r.lit(")")
+	case "stype":
+		r.lit("len([]")
+		r.id(item, role)
+		r.lit("{})")
 	case "method":
 		r.lit("T(0).")
 		r.id(item, role)
@@ -190,6 +196,32 @@ func render(c *scCase) (*rendered, string) {
 	if c.Go || !has["xmain"] {
 		r.lit("package main\n\n")
 	}
+	var imps []string
+	needU := false
+	for _, it := range c.Items {
+		if it.Op == "pstruct" {
+			has["method"] = has["method"] || it.R == "y" // the prelude type T
+			needU = needU || it.Q == "y"
+			if it.K == "y" {
+				imps = append(imps, "sync")
+			}
+			if it.V == "y" {
+				imps = append(imps, "bytes")
+			}
+		}
+	}
+	seenImp := map[string]bool{}
+	for _, im := range []string{"bytes", "sync"} {
+		for _, x := range imps {
+			if x == im && !seenImp[im] {
+				seenImp[im] = true
+				r.lit("import \"" + im + "\"\n\n")
+			}
+		}
+	}
+	if needU {
+		r.lit("type U int\n\n")
+	}
 	if has["range"] || has["forin"] || has["compr"] {
 		r.lit("var xs = []int{1, 2}\n\n")
 	}
@@ -222,6 +254,37 @@ func render(c *scCase) (*rendered, string) {
 			r.lit(" = ")
 			initOr1(i, it)
 			r.lit("\n\n")
+		case "pshadow":
+			if it.R == "y" {
+				r.lit("type byte uint16\n\n")
+			}
+			if it.Q == "y" {
+				r.lit("type rune = int64\n\n")
+			}
+		case "tuse":
+			t := "byte"
+			if it.Q == "y" {
+				t = "rune"
+			}
+			ind()
+			r.lit(fmt.Sprintf("var z%d %s\n", i, t))
+			ind()
+			r.lit(fmt.Sprintf("_ = z%d\n", i))
+		case "pstruct":
+			r.lit("type ")
+			r.id(i, "n")
+			r.lit(" struct {\n")
+			if it.P != "-" {
+				r.lit("\t")
+				r.id(i, "p")
+				r.lit(" int\n")
+			}
+			for _, f := range [][2]string{{it.R, "T"}, {it.Q, "*U"}, {it.K, "sync.Mutex"}, {it.V, "*bytes.Buffer"}} {
+				if f[0] == "y" {
+					r.lit("\t" + f[1] + "\n")
+				}
+			}
+			r.lit("}\n\n")
 		case "pvar2", "pconst2":
 			if it.Op == "pvar2" {
 				r.lit("var ")
@@ -546,11 +609,13 @@ func runScopes() {
 	cases := hlib.ReadAllCases[scCase]()
 	var mu sync.Mutex
 	skipped, goprogs := 0, 0
+	skipSigs := map[string]int{}
 	hlib.Parallel(len(cases), workers(), func(i int) {
 		res := checkScopesCase(i, &cases[i])
 		mu.Lock()
 		if res.V == "skip" {
 			skipped++
+			skipSigs["skipped_"+res.Sig]++
 		}
 		if cases[i].Go {
 			goprogs++
@@ -558,8 +623,12 @@ func runScopes() {
 		mu.Unlock()
 		hlib.Emit(res)
 	})
-	hlib.EmitRaw(map[string]any{"v": "summary", "scopes_cases": len(cases), "scopes_skipped": skipped,
-		"go_compatible_programs": goprogs})
+	sum := map[string]any{"v": "summary", "scopes_cases": len(cases), "scopes_skipped": skipped,
+		"go_compatible_programs": goprogs}
+	for k, n := range skipSigs {
+		sum[k] = n
+	}
+	hlib.EmitRaw(sum)
 }
 
 func checkScopesCase(idx int, c *scCase) hlib.Result {
@@ -650,6 +719,9 @@ func checkScopesCase(idx int, c *scCase) hlib.Result {
 				}
 			}
 			dk := "other-" + kindOf(obj)
+			if v, ok := obj.(*types.Var); ok && v.Embedded() {
+				dk = "embedded-field"
+			}
 			if o, ok := tagOf(p); ok {
 				dk = o.Dk
 			}
